@@ -522,8 +522,27 @@ def rule_refs(ctx):
     upd = [n for n in own_nodes(f) if isinstance(n, ast.Call)
            and call_name(n) == 'update' and n.args and isinstance(
         n.args[0], (ast.DictComp, ast.GeneratorExp, ast.ListComp))]
-    upd = [u for u in upd if any(isinstance(x, ast.Name) and x.id in sols
-                                 for x in ast.walk(u.args[0]))]
+    def over_solution(u):
+        # iterates `<sol>.items()` with <sol> a name bound to a call result, or
+        # the call itself (`dsp({...}).items()`)
+        for g in u.args[0].generators:
+            it = g.iter
+            if isinstance(it, ast.Call) and isinstance(
+                    it.func, ast.Attribute) and it.func.attr in (
+                    'items', 'values'):
+                base = it.func.value
+                if isinstance(base, ast.Name) and base.id in sols:
+                    return True
+                if isinstance(base, ast.Call) and isinstance(
+                        base.func, ast.Name):
+                    return True
+        return any(isinstance(x, ast.Name) and x.id in sols
+                   for x in ast.walk(u.args[0]))
+
+    upd = [u for u in upd if over_solution(u)]
+    if not upd:
+        raise AnalysisError('_update_refs: the statement that stores the '
+                            'pre-evaluated references was not recognised')
     rr.instances = max(1, len(upd))
     if not upd:
         rr.ok('_update_refs does not store evaluation results', f.module.rel,
